@@ -362,3 +362,120 @@ func c02FamShadow(rng *Rng, id int) *c02Prog {
 	params = []c02Param{{Name: "p", Ty: A, Ann: rng.Bool(), Red: true}, xs}
 	return &c02Prog{ID: id, Stream: "family-shadow", Funcs: []*c02Func{c02MkFunc(name, params, body, rty)}}
 }
+
+// ---------------------------------------------------------------- anyarg
+// a structured value (slice, tuple, function, record) passed to a parameter or a record field declared
+// any: fc produces no relation for it, the caller's parameters are determined by their own operators
+
+func c02FamAnyArg(rng *Rng, id int) *c02Prog {
+	f0, f1 := fmt.Sprintf("p%df0", id), fmt.Sprintf("p%df1", id)
+	show := c02MkFunc(f0, []c02Param{{Name: "x", Ty: c02Any, Ann: true}},
+		c02G_("frt.Sprintf1", c02S_("<%v>"), c02V("x")), c02Str)
+	n1 := c02Op("arith", "+", c02V("n"), c02I(1))
+	var params []c02Param
+	var body *c02Exp
+	var rty *c02Ty
+	pn := func(t *c02Ty) c02Param { return c02Param{Name: "n", Ty: t, Ann: rng.Chance(1, 3), Red: true} }
+	switch rng.Intn(5) {
+	case 0: // slice to any
+		params, body, rty = []c02Param{pn(c02Int)}, c02G_(f0, &c02Exp{K: "slice", Args: []*c02Exp{c02V("n"), n1}}), c02Str
+	case 1: // tuple to any
+		params = []c02Param{pn(c02Int), {Name: "b", Ty: c02Str, Ann: rng.Chance(1, 3), Red: true}}
+		body, rty = c02G_(f0, c02Tup(n1, c02Op("arith", "+", c02V("b"), c02S_("!")))), c02Str
+	case 2: // function value to any
+		params = []c02Param{pn(c02Int)}
+		body, rty = c02G_(f0, &c02Exp{K: "lam", Xs: []string{"y"}, Args: []*c02Exp{c02Op("arith", "+", c02Op("arith", "*", c02V("y"), c02I(2)), n1)}}), c02Str
+	case 3: // record field declared any
+		params = []c02Param{{Name: "tag", Ty: c02Str, Ann: rng.Chance(1, 3), Red: true}, pn(c02Int)}
+		body = &c02Exp{K: "record", Name: "Ent", Args: []*c02Exp{c02Op("arith", "+", c02V("tag"), c02S_(":")),
+			{K: "slice", Args: []*c02Exp{c02V("n"), c02Op("arith", "*", c02V("n"), c02I(2))}}}}
+		rty = c02Named("Ent")
+	default: // nested: a tuple holding a slice, passed on inside a pair
+		params = []c02Param{pn(c02Int)}
+		body = c02Tup(c02G_(f0, c02Tup(&c02Exp{K: "slice", Args: []*c02Exp{n1}}, c02S_("k"))), c02V("n"))
+		rty = c02Tuple(c02Str, c02Int)
+	}
+	fn1 := c02MkFunc(f1, params, body, rty)
+	return &c02Prog{ID: id, Stream: "family-anyarg", Funcs: []*c02Func{show, fn1}}
+}
+
+// ---------------------------------------------------------------- retann
+// a result annotation that is the only source of information for some parameter
+
+func c02FamRetAnn(rng *Rng, id int) *c02Prog {
+	name := fmt.Sprintf("p%df0", id)
+	A := Choose(rng, []*c02Ty{c02Int, c02Str})
+	var f *c02Func
+	lit := func(t *c02Ty) *c02Exp { return c02LitOf(rng, t) }
+	switch rng.Intn(5) {
+	case 0: // let mkPair a b : A*B = (a, b)
+		B := Choose(rng, []*c02Ty{c02Int, c02Str, c02Bool, c02Slice(c02Int)})
+		f = c02MkFunc(name, []c02Param{{Name: "a", Ty: A}, {Name: "b", Ty: B}}, c02Tup(c02V("a"), c02V("b")), c02Tuple(A, B))
+		f.Ret = c02Tuple(A, B)
+	case 1: // let add a b : A = a + b   (generic, and not valid Go, without the annotation)
+		f = c02MkFunc(name, []c02Param{{Name: "a", Ty: A}, {Name: "b", Ty: A}}, c02Op("arith", "+", c02V("a"), c02V("b")), A)
+		f.Ret = A
+	case 2: // let total xs : A = slice.Fold (fun acc x -> acc + x) <lit> xs ... with the literal replaced by a parameter
+		f = c02MkFunc(name, []c02Param{{Name: "z", Ty: A}, {Name: "xs", Ty: c02Slice(A)}},
+			c02G_("slice.Fold", &c02Exp{K: "lam", Xs: []string{"acc", "x"}, Args: []*c02Exp{c02Op("arith", "+", c02V("acc"), c02V("x"))}}, c02V("z"), c02V("xs")), A)
+		f.Ret = A
+	case 3: // let twiceAll xs : []A = slice.Map (fun x -> x + x) xs
+		f = c02MkFunc(name, []c02Param{{Name: "xs", Ty: c02Slice(A)}},
+			c02G_("slice.Map", &c02Exp{K: "lam", Xs: []string{"x"}, Args: []*c02Exp{c02Op("arith", "+", c02V("x"), c02V("x"))}}, c02V("xs")), c02Slice(A))
+		f.Ret = c02Slice(A)
+	default: // let pick c a : (A*int) = if c then (a, 1) else (a, 2)    (c from if, a only from the annotation)
+		f = c02MkFunc(name, []c02Param{{Name: "c", Ty: c02Bool}, {Name: "a", Ty: A}},
+			&c02Exp{K: "if", Block: rng.Bool(), Args: []*c02Exp{c02V("c"), c02Tup(c02V("a"), lit(c02Int)), c02Tup(c02V("a"), lit(c02Int))}}, c02Tuple(A, c02Int))
+		f.Ret = c02Tuple(A, c02Int)
+	}
+	// some parameters may carry their (then redundant) annotation
+	for i := range f.Params {
+		if rng.Chance(1, 3) {
+			f.Params[i].Ann, f.Params[i].Red = true, true
+		}
+	}
+	return &c02Prog{ID: id, Stream: "family-retann", Funcs: []*c02Func{f}}
+}
+
+// ---------------------------------------------------------------- pipe
+// x |> f with f a function-typed parameter whose annotation is redundant: the emitted code must not
+// depend on the annotation
+
+func c02FamPipe(rng *Rng, id int) *c02Prog {
+	name := fmt.Sprintf("p%df0", id)
+	A := Choose(rng, []*c02Ty{c02Int, c02Str})
+	B := Choose(rng, []*c02Ty{c02Int, c02Str})
+	typed := func(t *c02Ty, v string) *c02Exp {
+		if t.K == "int" {
+			return c02Op("arith", Choose(rng, []string{"+", "*"}), c02V(v), c02I(1+rng.Intn(9)))
+		}
+		return c02Op("arith", "+", c02V(v), c02S_(Choose(rng, []string{"?", "!", "-"})))
+	}
+	ft := c02Fun([]*c02Ty{A}, B)
+	pf := c02Param{Name: "f", Ty: ft, Ann: true, Red: true}
+	ps := c02Param{Name: "s", Ty: A, Ann: rng.Bool(), Red: true}
+	pipe := &c02Exp{K: "pipe", Name: "f", Args: []*c02Exp{typed(A, "s")}}
+	var use *c02Exp // the result of the pipe is used at type B by an operator with a typed operand
+	if B.K == "int" {
+		use = c02Op("arith", "*", pipe, c02I(2))
+	} else {
+		use = c02Op("arith", "+", pipe, c02S_("!"))
+	}
+	var body *c02Exp
+	rty := B
+	switch rng.Intn(3) {
+	case 0:
+		body = use
+	case 1:
+		body = c02Let("r", pipe, c02Tup(typed(B, "r"), c02V("s")))
+		rty = c02Tuple(B, A)
+	default:
+		body = c02Tup(use, typed(A, "s"))
+		rty = c02Tuple(B, A)
+	}
+	params := []c02Param{pf, ps}
+	if rng.Bool() {
+		params = []c02Param{ps, pf}
+	}
+	return &c02Prog{ID: id, Stream: "family-pipe", Funcs: []*c02Func{c02MkFunc(name, params, body, rty)}}
+}
